@@ -59,6 +59,13 @@ TruncDiv(a, b) ==
     IF (a >= 0 /\ b > 0) \/ (a <= 0 /\ b < 0) THEN Abs(a) \div Abs(b)
     ELSE -(Abs(a) \div Abs(b))
 
+(* A witness of "b is a rearrangement of a" computed without search: the j-th occurrence of a value in b is matched with *)
+(* the j-th occurrence of that value in a (0-based function on positions).  Where a and b agree outside a window and hold *)
+(* the same bag inside it, the witness is the identity outside the window and maps the window into itself.                *)
+OccCount(s, v, upto) == Cardinality({k \in 1..upto : s[k] = v})
+NthOcc(s, v, j) == CHOOSE k \in DOMAIN s : s[k] = v /\ OccCount(s, v, k) = j
+MatchPerm(a, b) == [x \in 0..(Len(b) - 1) |-> NthOcc(a, b[x + 1], OccCount(b, b[x + 1], x + 1)) - 1]
+
 SumSeq(s) ==
     LET RECURSIVE S(_)
         S(k) == IF k = 0 THEN 0 ELSE s[k] + S(k - 1)
